@@ -100,6 +100,28 @@ func genProbeCase(r *core.RNG) *probeSpec {
 		p.scripts = append(p.scripts, sc)
 		p.profiles = append(p.profiles, name)
 	}
+	if n >= 2 && r.Chance(1, 4) {
+		// total outage: a later member is the only one that works, then nobody answers for longer than the retention;
+		// once every retained round of every member is a failure the scores are equal again
+		later := 1 + r.Intn(n-1)
+		s0 := r.Range(3, 30)
+		ln := r.Pick(65, 66, 70, 100)
+		for i := 0; i < s0 && i < len(p.scripts[0]); i++ {
+			for m := range p.scripts {
+				if m == later {
+					p.scripts[m][i] = okStep(r, p, pickLat(r, p))
+				} else {
+					p.scripts[m][i] = failStep(r, p)
+				}
+			}
+		}
+		for i := s0; i < s0+ln && i < len(p.scripts[0]); i++ {
+			for m := range p.scripts {
+				p.scripts[m][i] = failStep(r, p)
+			}
+		}
+		p.profiles = append(p.profiles, fmt.Sprintf("total-outage@%d+%d", s0, ln))
+	}
 	return p
 }
 
